@@ -9,7 +9,7 @@ import typing as T
 from ..core import Module, Undecided, norm, short, attr_chain, names_in, walk_no_nested
 from ..report import RuleCtx
 from .. import tables
-from .c19_norm import normalise
+from .c19_norm import normalise, normal_form
 
 DUNDER_OP = {'__lt__': 'lt', '__gt__': 'gt', '__le__': 'le', '__ge__': 'ge'}
 
@@ -213,11 +213,53 @@ class _Side(ast.NodeTransformer):
         return n
 
 
+def _core_nf(mod: Module, cls: str, info: 'CoreInfo') -> T.Any:
+    """The core in normal form: private helpers of the class/module inlined (a search loop split off, a sort-key helper),
+    locals resolved by their reaching definition."""
+    return normal_form(info.fn, mod.tree, cls=cls)
+
+
+def _sort_key_form(fn: T.Any, info: 'CoreInfo') -> T.Optional[T.Tuple[str, str, T.List[str], bool]]:
+    """`return comparator(SEQ(ours), SEQ(theirs))` where SEQ is one comprehension `[key(c) for c in <source>]` (or
+    list()/tuple() of such a generator) with the same key on both sides -> (ours source, theirs source, [projection of
+    each key element, `@` = the component], operands swapped?).  None: the core has another shape."""
+    body = [s for s in fn.body if not (isinstance(s, ast.Expr) and isinstance(s.value, ast.Constant))]
+    if len(body) != 1 or not isinstance(body[0], ast.Return) or not isinstance(body[0].value, ast.Call):
+        return None
+    call = body[0].value
+    if norm(call.func) != info.comparator or len(call.args) != 2 or call.keywords:
+        return None
+    sides: T.List[T.Tuple[str, T.List[str]]] = []
+    for a in call.args:
+        while isinstance(a, ast.Call) and norm(a.func) in ('list', 'tuple') and len(a.args) == 1 and not a.keywords:
+            a = a.args[0]
+        if not (isinstance(a, (ast.ListComp, ast.GeneratorExp)) and len(a.generators) == 1 and not a.generators[0].ifs
+                and isinstance(a.generators[0].target, ast.Name) and not a.generators[0].is_async):
+            return None
+        var = a.generators[0].target.id
+        elts = list(a.elt.elts) if isinstance(a.elt, ast.Tuple) else [a.elt]
+        projs = []
+        for e in elts:
+            t = copy.deepcopy(e)
+            for n in ast.walk(t):
+                if isinstance(n, ast.Name) and n.id == var:
+                    n.id = '@'
+            projs.append(norm(t))
+        sides.append((norm(a.generators[0].iter), projs))
+    if sides[0][1] != sides[1][1]:
+        return None
+    o = [i for i, (src, _) in enumerate(sides) if info.ours in names_in(ast.parse(src, mode='eval')) and info.theirs not in names_in(ast.parse(src, mode='eval'))]
+    t_ = [i for i, (src, _) in enumerate(sides) if info.theirs in names_in(ast.parse(src, mode='eval')) and info.ours not in names_in(ast.parse(src, mode='eval'))]
+    if len(o) != 1 or len(t_) != 1:
+        return None
+    return sides[o[0]][0], sides[t_[0]][0], sides[0][1], o[0] == 1
+
+
 def core_method(mod: Module, cls: str, core: str = '') -> T.Tuple[str, T.Any]:
     """(name, *normalised* function) of the comparison core (found by role; `core` is only a label): locals are
     resolved by their reaching definition, so a hoisted `mine = self._v` reads as `self._v` again."""
     info = core_info(mod, cls)
-    return info.name, normalise(info.fn)
+    return info.name, _core_nf(mod, cls, info)
 
 
 def _suffix(text: str, root: str) -> T.Optional[str]:
@@ -230,7 +272,13 @@ def zip_operands(mod: Module, cls: str, core: str = '') -> T.Tuple[str, str, str
     the component sequences themselves (module-level function called with `self._v, other._v`), the own chain is
     given as the dunders pass it."""
     info = core_info(mod, cls)
-    fn = normalise(info.fn)
+    fn = _core_nf(mod, cls, info)
+    sk = _sort_key_form(fn, info)
+    if sk is not None:
+        own_chain = info.ours_actual + (_suffix(sk[0], info.ours) or '')
+        if _suffix(sk[0], info.ours) is None or not own_chain.startswith('self.'):
+            raise Undecided(f'{cls}.{info.name}: cannot attribute the compared sequences')
+        return own_chain, sk[1], info.theirs
     loops = [s for s in fn.body if isinstance(s, ast.For)]
     if len(loops) != 1 or not (isinstance(loops[0].iter, ast.Call) and norm(loops[0].iter.func) == 'zip' and len(loops[0].iter.args) == 2):
         raise Undecided(f'{cls}.{info.name}: component loop is not `for a, b in zip(x, y)`')
@@ -252,10 +300,29 @@ def ranking_keys(ctx: RuleCtx, mod: Module, cls: str, core: str = '') -> T.List[
     info = core_info(mod, cls)
     name = info.name
     # locals are resolved by their reaching definition first (hoisted `a = self._v`, renamed flags)
-    fn = normalise(info.fn)
+    fn = _core_nf(mod, cls, info)
     qn = f'{cls}.{name}' if info.is_method else name
     argname = {k: v.id for k, v in tables._param_map(fn).items()}       # type: ignore[attr-defined]
     ours_p, other, comparator = info.ours, info.theirs, info.comparator
+    sk = _sort_key_form(fn, info)
+    if sk is not None:
+        # `comparator([key(c) for c in ours], [key(c) for c in theirs])`: sequences compare lexicographically - the first pair of
+        # differing keys decides, tuple keys element by element, and a proper prefix is smaller: keys in order, then the length
+        src_o, src_t, projs, flipped = sk
+        eo = (_suffix(info.ours_actual, 'self') or '') + (_suffix(src_o, ours_p) or '')
+        et = (_suffix(info.theirs_actual, 'ARG1') or '') + (_suffix(src_t, other) or '')
+        ctx.require(eo == et, f'{qn}: both operands contribute the same field ({eo or "themselves"})', mod, qn, 'compared sequences',
+                    f'the core compares self{eo} with other{et}: the two operands are not read through the same field')
+        keys: T.List[T.Tuple[str, str]] = []
+        for pr in projs:
+            direction = 'desc' if flipped else 'asc'
+            if pr.startswith('not '):
+                inner = ast.parse(pr[4:].replace('@', '_AT_'), mode='eval').body
+                pr, direction = norm(inner).replace('_AT_', '@'), ('asc' if flipped else 'desc')      # `not p` ranks a boolean key the other way round
+            keys.append((pr, direction))
+            ctx.ok(f'{qn}: sort key {pr} ({direction}) is applied to both sequences')
+        keys.append(('len(@)', 'desc' if flipped else 'asc'))
+        return keys
     loops = [s for s in fn.body if isinstance(s, ast.For)]
     if len(loops) != 1:
         raise Undecided(f'{qn}: expected exactly one component loop')
